@@ -8,13 +8,14 @@ round-trip for every curve and are refused under the wrong banner."
 Structural layer only (`Model/CertKeys.lean`): PEM framing is an opaque (banner, bytes) pair, Argon2id and
 AES-256-GCM are uninterpreted functions with the laws of `LawfulKeyCrypto` (round trip, idealised
 authenticity, KDF injectivity) — hypotheses, never axioms. The protobuf round trip of
-`RawNebulaEncryptedData` enters `decrypt_encrypt_partial` as the explicit hypothesis `hpb` (tied by the
-`certkeys` correspondence stream, which decodes every blob the real encoder produced).
+`RawNebulaEncryptedData` is proved (`Lemmas/CertKeysPb.lean`, on the shared varint lemmas of `Lemmas/Wire.lean`),
+so `decrypt_encrypt` has no codec hypothesis.
 -/
 import Nebula.Lemmas.CertKeys
+import Nebula.Lemmas.CertKeysPb
 
 namespace Nebula.Props.C43
-open Nebula.CertKeys Nebula.Lemmas.CertKeys
+open Nebula.CertKeys Nebula.Lemmas.CertKeys Nebula.Lemmas.CertKeysPb
 open Nebula.Cert (curve25519 curveP256)
 
 /-- The ten key banners are pairwise different (regenerated constants). -/
@@ -121,9 +122,9 @@ theorem decrypt_ok_bounds (K : KeyCrypto) (pass : Bytes) (banner : String) (body
         exact ⟨rfl, hk, d, md, a, rfl, hm, ha, hc, h1, h2, h3⟩
 
 /-- **decrypt ∘ encrypt = key** for every lawful crypto, curve, key of the curve's length, passphrase,
-parameters within bounds and 12-byte nonce. `_partial`: `hpb` = the protobuf decoder reads the encoder's
-output back (tied by correspondence; not proved for the varint layer), `hbody` = the encoding is not empty. -/
-theorem decrypt_encrypt_partial (K : LawfulKeyCrypto) (curve : Nat) (key pass : Bytes) (a : Argon) (nonce : Bytes)
+parameters within bounds and 12-byte nonce — stated for *any* body that decodes to the message (`hpb`); the
+body `encrypt` itself produces is `decrypt_encrypt` below. -/
+theorem decrypt_of_decoding (K : LawfulKeyCrypto) (curve : Nat) (key pass : Bytes) (a : Argon) (nonce : Bytes)
     (banner : String) (body : Bytes)
     (hlen : curve = curve25519 ∧ key.length = 64 ∨ curve = curveP256 ∧ key.length = 32)
     (hparams : checkArgon a = none) (hnonce : nonce.length = nonceSize)
@@ -224,6 +225,52 @@ theorem tamper_refused_or_same (K : LawfulKeyCrypto) (key pass : Bytes) (a : Arg
       rw [hc, K.open_of_seal] at ho
       exact (Option.some.inj ho).symm
 
+/-- **decrypt ∘ encrypt = key**, no codec hypothesis: for every lawful AEAD/KDF, both curves, every key of the
+curve's length, every passphrase, every parameter set inside the Go types (`ArgonWF`) that passes the range
+check, every salt of 16 … 2^32 bytes and every 12-byte nonce, decrypting what `encrypt` produced with the same
+passphrase returns exactly the curve and the key. -/
+theorem decrypt_encrypt (K : LawfulKeyCrypto) (curve : Nat) (key pass : Bytes) (a : Argon) (nonce : Bytes)
+    (banner : String) (body : Bytes)
+    (hlen : curve = curve25519 ∧ key.length = 64 ∨ curve = curveP256 ∧ key.length = 32)
+    (hparams : checkArgon a = none) (hwf : ArgonWF a) (hsalt : a.salt.length < 2 ^ 32) (hnonce : nonce.length = nonceSize)
+    (he : encrypt K.toKeyCrypto curve key pass a nonce = some (banner, body)) :
+    decrypt K.toKeyCrypto pass banner body = .ok (curve, key) := by
+  have hb : (nonce ++ K.aeadSeal (K.kdf pass a) nonce key).length < 2 ^ 64 := by
+    rw [List.length_append, K.seal_length, hnonce]
+    rcases hlen with ⟨-, hk⟩ | ⟨-, hk⟩ <;> rw [hk] <;> decide
+  have hrt := decEncData_encrypted a hwf (nonce ++ K.aeadSeal (K.kdf pass a) nonce key) hsalt hb
+  have hbody : body = encEncData (msgOf a (nonce ++ K.aeadSeal (K.kdf pass a) nonce key)) := by
+    unfold encrypt at he
+    split at he
+    · cases he
+    · split at he
+      · cases he
+      · simp only [Option.some.injEq, Prod.mk.injEq] at he
+        exact he.2.symm
+  subst hbody
+  exact decrypt_of_decoding K curve key pass a nonce banner _ hlen hparams hnonce he hrt.2 hrt.1
+
+/-- **Any other passphrase is refused**, for the body `encrypt` produced (no codec hypothesis). -/
+theorem wrong_passphrase_refused_encrypted (K : LawfulKeyCrypto) (curve : Nat) (key pass pass' : Bytes) (a : Argon)
+    (nonce : Bytes) (banner banner' : String) (body : Bytes) (hwf : ArgonWF a) (hsalt : a.salt.length < 2 ^ 32)
+    (hkey : key.length < 2 ^ 32) (hnonce : nonce.length = nonceSize)
+    (he : encrypt K.toKeyCrypto curve key pass a nonce = some (banner, body))
+    (hwrong : K.aeadOpen (K.kdf pass' a) nonce (K.aeadSeal (K.kdf pass a) nonce key) = none) :
+    ∀ r, decrypt K.toKeyCrypto pass' banner' body ≠ .ok r := by
+  have hb : (nonce ++ K.aeadSeal (K.kdf pass a) nonce key).length < 2 ^ 64 := by
+    rw [List.length_append, K.seal_length, hnonce]; unfold nonceSize; omega
+  have hrt := decEncData_encrypted a hwf (nonce ++ K.aeadSeal (K.kdf pass a) nonce key) hsalt hb
+  have hbody : body = encEncData (msgOf a (nonce ++ K.aeadSeal (K.kdf pass a) nonce key)) := by
+    unfold encrypt at he
+    split at he
+    · cases he
+    · split at he
+      · cases he
+      · simp only [Option.some.injEq, Prod.mk.injEq] at he
+        exact he.2.symm
+  subst hbody
+  exact wrong_passphrase_refused K key pass pass' a nonce banner' _ hnonce hwrong hrt.1
+
 /-! ### Non-vacuity: a lawful crypto exists and the hypotheses of the conditional theorems are satisfiable -/
 
 example : ∃ K : LawfulKeyCrypto, ∀ k n m, K.aeadOpen k n (K.aeadSeal k n m) = some m := ⟨toyCrypto, toyCrypto.open_of_seal⟩
@@ -235,5 +282,7 @@ example : encrypt toyCrypto.toKeyCrypto curveP256 toyKey [1] toyArgon toyNonce =
     some (Gen.cert_EncryptedECDSAP256PrivateKeyBanner, toyBody) := by decide
 
 example : checkArgon toyArgon = none := by decide
+
+example : ArgonWF toyArgon ∧ toyArgon.salt.length < 2 ^ 32 := by unfold ArgonWF; decide
 
 end Nebula.Props.C43
